@@ -74,15 +74,18 @@ pub fn serve(root: &Path) -> Result<(), Box<dyn std::error::Error>> {
     while let Some(req) = read_frame::<_, Request>(&mut r)? {
         match req {
             Request::Hello { .. } => write_frame(&mut w, &Response::Hello { version: VERSION })?,
-            Request::List => {
-                let fps = discover_local_fingerprints(root).unwrap_or_default();
-                let map = fps
-                    .into_iter()
-                    .filter(|(p, _)| !p.starts_with(".copia"))
-                    .map(|(p, f)| (p.to_string_lossy().into_owned(), f))
-                    .collect();
-                write_frame(&mut w, &Response::Fingerprints(map))?;
-            }
+            Request::List => match discover_local_fingerprints(root) {
+                Ok(fps) => {
+                    let map = fps
+                        .into_iter()
+                        .filter(|(p, _)| !p.starts_with(".copia"))
+                        .map(|(p, f)| (p.to_string_lossy().into_owned(), f))
+                        .collect();
+                    write_frame(&mut w, &Response::Fingerprints(map))?;
+                }
+                // an unreadable tree is not an empty one
+                Err(e) => write_frame(&mut w, &Response::Error(format!("cannot list: {e}")))?,
+            },
             Request::Get { path } => handle_get(root, &path, &mut w)?,
             Request::Put {
                 path,
